@@ -96,6 +96,7 @@ CheckSchema(e, line) ==
 CheckCase(e, line) ==
   CASE e.fn = "match" -> CheckMatch(e, line)
     [] e.fn = "schema" -> CheckSchema(e, line)
+    [] e.fn = "cmp" -> (Cmp(e.l, e.r) = e.res \/ Bad(line, "cmp", Cmp(e.l, e.r), e.res))     \* sign of bsonkit.Compare (C12)
     [] e.fn = "apply" -> CheckApply(e, line)
     [] e.fn = "find" -> CheckFind(e, line)
     [] e.fn = "distinct" -> CheckDistinct(e, line)
